@@ -44,7 +44,11 @@ CpBad(e, k, acc) ==
   IF k > Len(e.checkpoints) THEN acc
   ELSE LET cp == e.checkpoints[k]
            bad == {i \in 1..Len(cp.open) : ~SameValue(e.inputs[cp.open[i]], cp.values[i])} IN
-       IF bad # {} THEN <<"a retained record changed while its bank was still open (checkpoint after " \o cp.after \o ")">> ELSE CpBad(e, k + 1, acc)
+       IF bad # {} THEN <<"a retained record changed while its bank was still open (checkpoint after " \o cp.after \o ")">>
+       \* BankPool!PoolOnce observed: the banks of records held at the same time are different objects
+       ELSE IF \E i, j \in 1..Len(cp.banks) : i # j /\ cp.banks[i] = cp.banks[j]
+            THEN <<"two records held at the same time were handed the same resource bank (checkpoint after " \o cp.after \o ")">>
+       ELSE CpBad(e, k + 1, acc)
 FailsRetain(e) == IF e.panic # "" THEN <<"panic: " \o e.panic>> ELSE IF e.err # "" THEN <<"read failed: " \o e.err>>
                   ELSE Chk(e.delivered = Len(e.inputs), "wrong number of records") \o CpBad(e, 1, <<>>)
 
